@@ -506,6 +506,7 @@ fn ops_from_json(v: &Value) -> Vec<Op> {
 }
 
 fn load_image(hooks: &FHooks, seed: u64, name: &str, logical: &Logical, dir: &Path) -> Image {
+    hooks.set_short_reads(0, 0);
     let (built, pristine) =
         crate::build_image(hooks, seed, name, logical, dir).unwrap_or_else(|e| simcore::harness_error(&e));
     let mism = dump::check_against_model(&pristine, &built.model, crate::contents_readable(logical.packaging));
